@@ -60,7 +60,18 @@ func optList(o TestOpts) []z.TestOption {
 	}
 	if o.MsgFunc != nil {
 		txt := *o.MsgFunc
-		all[1] = z.MessageFunc(func(e *z.ZogIssue, c z.Ctx) { e.SetMessage(txt) })
+		reads, hasPath := o.MsgFuncReads, o.Path != nil
+		all[1] = z.MessageFunc(func(e *z.ZogIssue, c z.Ctx) {
+			if !reads {
+				e.SetMessage(txt)
+				return
+			}
+			var p *string
+			if !hasPath {
+				p = &e.Path
+			}
+			e.SetMessage(ComposeMsg(txt, e.Code, e.Dtype, e.Params, p))
+		})
 	}
 	if o.Code != nil {
 		all[2] = z.IssueCode(*o.Code)
@@ -194,8 +205,7 @@ func (b *builder) buildString(n *Node) z.ZogSchema {
 		o := optList(t.Opts)
 		if t.Op == TCustom {
 			if t.ViaTest {
-				code := ""
-				s = s.Test(z.TestFunc(code, b.customTest(n, t), o...))
+				s = s.Test(reusable(b.customTest(n, t), t))
 			} else {
 				s = s.TestFunc(b.customTest(n, t), o...)
 			}
@@ -297,7 +307,7 @@ func buildNumber[T number](b *builder, n *Node, ctor func(...z.SchemaOption) *z.
 		switch t.Op {
 		case TCustom:
 			if t.ViaTest {
-				s = s.Test(z.TestFunc("", b.customTest(n, t), o...))
+				s = s.Test(reusable(b.customTest(n, t), t))
 			} else {
 				s = s.TestFunc(b.customTest(n, t), o...)
 			}
@@ -343,7 +353,7 @@ func (b *builder) buildBool(n *Node) z.ZogSchema {
 		switch t.Op {
 		case TCustom:
 			if t.ViaTest {
-				s = s.Test(z.TestFunc("", b.customTest(n, t), optList(t.Opts)...))
+				s = s.Test(reusable(b.customTest(n, t), t))
 			} else {
 				s = s.TestFunc(b.customTest(n, t), optList(t.Opts)...)
 			}
@@ -384,7 +394,7 @@ func (b *builder) buildTime(n *Node) z.ZogSchema {
 		switch t.Op {
 		case TCustom:
 			if t.ViaTest {
-				s = s.Test(z.TestFunc("", b.customTest(n, t), o...))
+				s = s.Test(reusable(b.customTest(n, t), t))
 			} else {
 				s = s.TestFunc(b.customTest(n, t), o...)
 			}
@@ -423,7 +433,7 @@ func (b *builder) buildSlice(n *Node) z.ZogSchema {
 		switch t.Op {
 		case TCustom:
 			if t.ViaTest {
-				s = s.Test(z.TestFunc("", b.customTestPtr(n, t), o...))
+				s = s.Test(reusable(b.customTestPtr(n, t), t))
 			} else {
 				s = s.TestFunc(b.customTestPtr(n, t), o...)
 			}
@@ -466,7 +476,7 @@ func (b *builder) buildStruct(n *Node) z.ZogSchema {
 			panic("spec: struct test not supported: " + t.Op.String())
 		}
 		if t.ViaTest {
-			s = s.Test(z.TestFunc("", b.customTestPtr(n, t), o...))
+			s = s.Test(reusable(b.customTestPtr(n, t), t))
 		} else {
 			s = s.TestFunc(b.customTestPtr(n, t), o...)
 		}
@@ -475,4 +485,32 @@ func (b *builder) buildStruct(n *Node) z.ZogSchema {
 		s = s.PostTransform(b.post(n, &n.Posts[i]))
 	}
 	return s
+}
+
+// reusable builds the z.Test for a custom test added through schema.Test(...). With Patch the test is created bare and
+// specialised afterwards through its exported fields, which the API documents as equivalent to passing the options.
+func reusable(fn z.BoolTFunc, t *Test) z.Test {
+	if !t.Patch {
+		return z.TestFunc("", fn, optList(t.Opts)...)
+	}
+	zt := z.TestFunc("", fn)
+	o := t.Opts
+	if o.Message != nil {
+		msg := *o.Message
+		zt.IssueFmtFunc = func(e *z.ZogIssue, c z.Ctx) { e.SetMessage(msg) }
+	}
+	if o.MsgFunc != nil {
+		msg := *o.MsgFunc
+		zt.IssueFmtFunc = func(e *z.ZogIssue, c z.Ctx) { e.SetMessage(msg) }
+	}
+	if o.Code != nil {
+		zt.IssueCode = *o.Code
+	}
+	if o.Path != nil {
+		zt.IssuePath = *o.Path
+	}
+	if o.Params != nil {
+		zt.Params = o.Params
+	}
+	return zt
 }
